@@ -164,7 +164,7 @@ fn run_history<const N: usize, const H: usize>(g: &mut TaikoGradualDifficulty, w
             v += n + 1;
             assert!(res.is_some(), "C15,C02 taiko: a value is produced while enough values remain");
             let a = res.unwrap();
-            assert!(a.max_combo as usize == v, "C02 taiko: max_combo equals the number of hits passed");
+            assert!(a.max_combo as usize == v, "C02,C15 taiko: max_combo equals the number of hits passed");
             assert!(g.idx == v, "C15 taiko: cursor advanced by n + 1");
             assert!(g.len() == total - v, "C15,C02 taiko: len() equals the number of values still to come");
             let (lo, hi) = g.size_hint();
@@ -172,18 +172,18 @@ fn run_history<const N: usize, const H: usize>(g: &mut TaikoGradualDifficulty, w
             if ghost {
                 let want = processed_after(&w.is_hit, v);
                 unsafe {
-                    assert!(LOG_LEN == want, "C02 taiko: difficulty objects processed up to the hit, once each");
-                    assert!(OTHER_CALLS == 4 * want, "C02 taiko: all five skills process the same objects");
+                    assert!(LOG_LEN == want, "C02,C15 taiko: difficulty objects processed up to the hit, once each");
+                    assert!(OTHER_CALLS == 4 * want, "C02,C15 taiko: all five skills process the same objects");
                     let mut j = 0;
                     while j < want && j < 16 {
-                        assert!(LOG[j] == j, "C02 taiko: processed objects in order");
+                        assert!(LOG[j] == j, "C02,C15 taiko: processed objects in order");
                         j += 1;
                     }
                 }
             } else if let Some(map) = map {
                 let one = Difficulty::new().passed_objects(v as u32).calculate_for_mode::<Taiko>(map).unwrap();
-                assert!(one.max_combo == a.max_combo, "C02 taiko: max_combo equals one-shot passed_objects(i)");
-                assert!(one == a, "C02 taiko: value equals one-shot passed_objects(i)");
+                assert!(one.max_combo == a.max_combo, "C02,C15 taiko: max_combo equals one-shot passed_objects(i)");
+                assert!(one == a, "C02,C15 taiko: value equals one-shot passed_objects(i)");
             }
         } else {
             if !(skip & SKIP_NTH_BEYOND != 0 && available > 0) {
